@@ -116,6 +116,51 @@ def class_attr_assign(cls, name):
     return val
 
 
+def property_accessors(cls, name):
+    """{'get': func, 'set': func} of a class-level property `name`, whichever
+    way it is spelled: name = property(g, s) with lambdas or method names, or
+    @property / @name.setter methods.  Lambdas are wrapped into a synthetic
+    function that returns their body."""
+    out = {}
+
+    def as_func(node, kind):
+        if isinstance(node, ast.Lambda):
+            f = ast.FunctionDef(name='%s_%s' % (name, kind), args=node.args,
+                                body=[ast.Return(value=node.body)], decorator_list=[],
+                                returns=None, type_comment=None, type_params=[])
+            ast.copy_location(f, node)
+            ast.fix_missing_locations(f)
+            for parent in ast.walk(f):
+                for child in ast.iter_child_nodes(parent):
+                    child.parent = parent
+            f.parent = cls
+            return f
+        if isinstance(node, ast.Name):
+            for st in cls.body:
+                if isinstance(st, FUNC) and st.name == node.id:
+                    return inlined(st)
+        return None
+    v = class_attr_assign(cls, name)
+    if isinstance(v, ast.Call) and isinstance(v.func, ast.Name) and v.func.id == 'property':
+        args = list(v.args)
+        kw = {k.arg: k.value for k in v.keywords}
+        g = args[0] if args else kw.get('fget')
+        s_ = args[1] if len(args) > 1 else kw.get('fset')
+        if g is not None:
+            out['get'] = as_func(g, 'get')
+        if s_ is not None:
+            out['set'] = as_func(s_, 'set')
+    for st in cls.body:
+        if isinstance(st, FUNC) and st.name == name:
+            for d in st.decorator_list:
+                if isinstance(d, ast.Name) and d.id == 'property':
+                    out['get'] = inlined(st)
+                elif isinstance(d, ast.Attribute) and isinstance(d.value, ast.Name) and \
+                        d.value.id == name and d.attr in ('setter', 'getter'):
+                    out['set' if d.attr == 'setter' else 'get'] = inlined(st)
+    return {k: f for k, f in out.items() if f is not None}
+
+
 def methods_of(cls, raw=False):
     if raw:
         return {st.name: st for st in cls.body if isinstance(st, FUNC)}
